@@ -110,7 +110,7 @@ func rulesPanics(c *Ctx, r *Report, funcs []*ssa.Function, reach map[*ssa.Functi
 						}
 					}
 				case *ssa.MapUpdate:
-					if !mapIsLocalMake(x.Map) {
+					if !mapIsLocalMake(x.Map) && !c.paramAlwaysLocalMake(f, x.Map) {
 						nImplicit++
 						r.violated("PANIC", fname(f), "map update", c.pos(x.Pos()), "write to a map that is not created in this function: a nil map panics")
 					}
@@ -497,4 +497,46 @@ func rulesPassThroughErrors(c *Ctx, r *Report) {
 		}
 	}
 	r.floor("B0-PASS", n, 3, "pass-through error variables in sam (Reader, File, FileHeader)")
+}
+
+// paramAlwaysLocalMake: m is a parameter of an unexported function all of whose call sites in the module pass a
+// map made in the calling function (and the function is never used as a value).
+func (c *Ctx) paramAlwaysLocalMake(f *ssa.Function, m ssa.Value) bool {
+	par, ok := m.(*ssa.Parameter)
+	if !ok || f.Parent() != nil {
+		return false
+	}
+	if n := f.Name(); n == "" || (n[0] >= 'A' && n[0] <= 'Z') {
+		return false
+	}
+	idx := -1
+	for i, p := range f.Params {
+		if p == par {
+			idx = i
+		}
+	}
+	if idx < 0 {
+		return false
+	}
+	nSites, okAll := 0, true
+	for _, g := range c.moduleFuncs() {
+		instrs(g, func(in ssa.Instruction) {
+			var ops []*ssa.Value
+			for _, op := range in.Operands(ops) {
+				if *op != ssa.Value(f) {
+					continue
+				}
+				cl, isCall := in.(*ssa.Call)
+				if !isCall || cl.Call.Value != ssa.Value(f) || idx >= len(cl.Call.Args) {
+					okAll = false
+					continue
+				}
+				nSites++
+				if !mapIsLocalMake(cl.Call.Args[idx]) {
+					okAll = false
+				}
+			}
+		})
+	}
+	return okAll && nSites > 0
 }
